@@ -57,7 +57,20 @@ def nt_c14(tr):
     return False
 
 
+def nt_c13(tr):
+    # a stream-attached actor that handled at least one item and also a message or a stop
+    return has(tr, 1, lambda e: e[6] == 1) and has(tr, 27) and (has(tr, 8) or has(tr, 7, lambda e: e[2] == 1))
+
+
 PROPS = {
+    "C13": {
+        "families": [("streams", 1200, 30000)],
+        "monitors": ["C13", "C03"],
+        "theorems": ["C13_items_in_order_never_abandoned", "C13_end_protocol"],
+        "nontrivial": nt_c13,
+        "rule": "cases generated from (family, VERIF_SEED, index): harness-controlled streams (empty, finite, never-ending, released in bursts by client operations) on every stream spawn entry point, with messages, stops, handle drops interleaved; non-trivial = a stream-attached actor handled at least one item and also a message or a stop request; distinct = distinct case JSON",
+        "assumptions": ["the select! tie-break is not seeded: every outcome the implementation produced is read off its trace"],
+    },
     "C14": {
         "families": [("liveness-query", 900, 25000), ("registry-liveness", 500, 12000), ("faults", 200, 6000)],
         "monitors": ["C14"],
@@ -92,6 +105,14 @@ COMMON_NOTE = ("Trusted: Coq kernel; the hand-written model's fidelity (checked 
                "No axioms. Real-thread races inside external crates and real wake-ups beyond the sampled cases are outside.")
 
 MANIFEST_TEXT = {
+    "C13": {
+        "text": "Theorems C13_items_in_order_never_abandoned and C13_end_protocol (Coq, simulation): on every execution the model accepts, stream items are handled exactly once in stream order, "
+                "nothing of a stream-attached actor is abandoned short of a task cancellation, and the end protocol finished-then-stopped-then-graceful-end holds (lifecycle automaton). "
+                "That stop / last drop terminate an actor whose stream never ends is checked as progress at every quiescence of the executor (model stability check) by correspondence on the streams family.",
+        "note": COMMON_NOTE,
+        "technique": "Rocq/Coq proof (simulation) over an executable model; correspondence by differential run of model and implementation",
+        "design_ref": "DESIGN.md section 6 C13",
+    },
     "C14": {
         "text": "Theorem C14_truth (Coq, simulation): on every execution the model accepts, every stopped()/running() answer equals whether the addressed actor's task "
                 "has ended, independent of any await history. The registry's reactions to an un-awaited termination are part of the model's registry rules (C08) and are checked by correspondence "
